@@ -165,6 +165,64 @@ def creation_rows():
     return rows
 
 
+def gen_save_shape(ctx):
+    """Who may change the compression code of a stored stream, and what `PSDImage.save` does to the merged image after it
+    compressed it: regenerated from the AST -> Generated/C03Save.lean (`C03Pixels.declared_code_tied`). The model's `save`
+    stores `setData comp planes header`: code and payload come from ONE call."""
+    root = core.REPO / "src" / "psd_tools"
+    stores = []
+    for f in sorted(root.rglob("*.py")):
+        try:
+            tree = ast.parse(f.read_text())
+        except Exception:  # noqa
+            stores.append(str(f.relative_to(root)) + ":<unparsable>")
+            continue
+        for fn in [n for n in ast.walk(tree) if isinstance(n, (ast.FunctionDef, ast.AsyncFunctionDef))]:
+            for n in ast.walk(fn):
+                tg = []
+                if isinstance(n, ast.Assign):
+                    tg = n.targets
+                elif isinstance(n, (ast.AugAssign, ast.AnnAssign)):
+                    tg = [n.target]
+                elif isinstance(n, ast.Call) and getattr(n.func, "id", "") == "setattr" and len(n.args) >= 2 \
+                        and isinstance(n.args[1], ast.Constant) and n.args[1].value == "compression":
+                    stores.append("%s:%s:setattr" % (f.relative_to(root), fn.name))
+                for t in tg:
+                    for x in ast.walk(t):
+                        if isinstance(x, ast.Attribute) and x.attr == "compression" and isinstance(x.ctx, ast.Store):
+                            stores.append("%s:%s:%s" % (f.relative_to(root), fn.name, ast.unparse(x)))
+    set_calls, after = [], []
+    try:
+        tree = ast.parse((root / "api" / "psd_image.py").read_text())
+        save = next(n for n in ast.walk(tree) if isinstance(n, ast.FunctionDef) and n.name == "save")
+        line = None
+        for n in ast.walk(save):
+            if isinstance(n, ast.Call) and getattr(n.func, "attr", "") == "set_data":
+                set_calls.append(ast.unparse(n))
+                line = n.lineno if line is None else min(line, n.lineno)
+        for n in ast.walk(save):
+            if isinstance(n, (ast.Assign, ast.AugAssign, ast.AnnAssign)) and line is not None and n.lineno > line:
+                for t in (n.targets if isinstance(n, ast.Assign) else [n.target]):
+                    if isinstance(t, (ast.Attribute, ast.Subscript)):
+                        after.append(ast.unparse(t))
+    except Exception as e:  # noqa
+        set_calls.append("<PSDImage.save not found: %s>" % type(e).__name__)
+
+    def ls(xs):
+        return "[" + ", ".join('"' + x.replace("\\", "\\\\").replace('"', '\\"') + '"' for x in xs) + "]"
+    ctx.write_generated(
+        "C03Save",
+        "namespace PsdVerif.Generated.C03Save\n"
+        "/-- every assignment to an attribute named `compression` inside a function of psd_tools (file:function:target) -/\n"
+        f"def compressionStores : List String := {ls(sorted(set(stores)))}\n"
+        "/-- the `set_data` calls of `PSDImage.save` -/\n"
+        f"def saveSetData : List String := {ls(set_calls)}\n"
+        "/-- attribute / item assignments of `PSDImage.save` after that call -/\n"
+        f"def saveStoresAfterSetData : List String := {ls(after)}\n"
+        "end PsdVerif.Generated.C03Save\n")
+    return {"compression_stores": sorted(set(stores)), "save_set_data": set_calls, "save_stores_after": after}
+
+
 def gen_creation(ctx):
     try:
         rows = creation_rows()
@@ -310,6 +368,71 @@ def creation_documents(ctx):
         for how in ("new", "detached", "group_layers"):
             attempt("groups-%s-%s-d%d" % (how, tm, depth), "creation/Group." + ("group_layers" if how == "group_layers" else "new"),
                     {"entry": "Group." + how, "document": tm, "depth": depth}, lambda: tree(how=how))
+    # (E) the merged image in EVERY compression x how the document came to be (new / frompil / opened from a file that
+    #     stores it that way) x structural edit x FIRST and SECOND save: save() regenerates the merged image after an
+    #     edit, and what it stores must decode according to the code it declares
+    all_comps = [Compression.RAW, Compression.RLE, Compression.ZIP, Compression.ZIP_WITH_PREDICTION]
+
+    def edit(p, how):
+        im = pil_image("RGB", (2, 2), 1)
+        a = PixelLayer.frompil(im, p, "a")
+        b = PixelLayer.frompil(im, p, "b", 1, 1)
+        if how == "append":
+            p.append(a)
+        elif how == "append-remove":
+            p.append(a)
+            p.append(b)
+            p.remove(a)
+        elif how == "move":
+            p.append(a)
+            p.append(b)
+            p.remove(b)
+            p.insert(0, b)
+        elif how == "group_layers":
+            p.append(a)
+            p.append(b)
+            Group.group_layers([a, b], "grouped")
+        elif how == "group-new":
+            g = Group.new("g", parent=p)
+            g.append(a)
+        elif how == "clear":
+            p.append(a)
+            p.clear()
+
+    regen = [t for t in targets if t[0].upper().rstrip("A") in ("RGB", "GRAYSCALE", "CMYK", "L", "LA")]
+    control = [t for t in targets if t not in regen][:: max(1, len(targets) // 4)][:3]
+    edits = ["append", "append-remove", "move", "group_layers", "group-new", "clear"]
+    n_e = 0
+    for tm, depth in regen + control:
+        for comp in all_comps:
+            plans = [("new", "append"), ("frompil", "append"), ("opened", "append")] + [("new", e) for e in edits[1:]] \
+                + [("opened", edits[1 + (n_e % (len(edits) - 1))])]
+            if not quick:
+                plans = [(s_, e) for s_ in ("new", "frompil", "opened") for e in edits]
+            n_e += 1
+            for source, how in plans:
+                def make(tm=tm, depth=depth, comp=comp, source=source):
+                    if source == "frompil":
+                        im = pil_image(tm, (5, 4), 2)
+                        if im is None or depth != 8:
+                            raise ValueError("no PIL image of this mode/depth")
+                        return PSDImage.frompil(im, compression=comp)
+                    p = PSDImage.new(tm, (5, 4), color=(90 if depth == 8 else 30000), depth=depth, compression=comp)
+                    if source == "opened":
+                        p = PSDImage.open(io.BytesIO(_save(p)))
+                    return p
+                holder = {}
+
+                def first(make=make, how=how, holder=holder):
+                    p = make()
+                    edit(p, how)
+                    holder["p"] = p
+                    return _save(p)
+                meta = {"entry": "merged-compression", "source": source, "document": tm, "depth": depth,
+                        "merged_compression": int(comp), "edit": how}
+                lab = "merged-c%d-%s-%s-%s-d%d" % (int(comp), source, how, tm, depth)
+                if attempt(lab + "-save1", "creation/edit-then-save", dict(meta, save=1), first) and "p" in holder:
+                    attempt(lab + "-save2", "creation/edit-then-save", dict(meta, save=2), lambda: _save(holder["p"]))
     ctx.extra["creation_matrix"] = {
         "mode_names": [m for m, _ in names], "pil_modes": pil_modes,
         "documents_PSDImage_new_accepts": ["%s/d%d" % t for t in doc_modes],
@@ -337,4 +460,9 @@ def run(ctx):
                  "into a document of every creatable header, Group.new / group_layers) x every mode name (PIL.Image.MODES, "
                  "ColorMode names with and without alpha, the keys of the library's pil_io tables, lower-case spellings) x depth "
                  "8/16/32 x compression x PSD/PSB; what an entry point refuses is dropped, what it saves is walked and its merged "
-                 "image / layer channels are read against the header and the records.")
+                 "image / layer channels are read against the header and the records. Merged image: every compression (raw, RLE, "
+                 "ZIP, ZIP with prediction) x document made by new / frompil / opened from a file x structural edit (append, "
+                 "append+remove, move, group_layers, Group.new, clear) x first and second save, for every creatable header whose "
+                 "merged image save() regenerates (and three it does not); the stored image data must decode according to the "
+                 "code it declares (RLE: channels*height table entries summing to the rest, each row expanding to the row size; "
+                 "ZIP: inflates to channels*height*rowbytes).")
